@@ -336,6 +336,8 @@ fn fallback(el: &[usize], cur: Option<usize>) -> usize {
     }
 }
 
+static SEEN_BLOCKING: std::sync::atomic::AtomicBool = std::sync::atomic::AtomicBool::new(false);
+
 pub enum Done {
     Finished,
     /// no simulated thread made a step or finished for `hang_ms`
@@ -546,12 +548,19 @@ impl Sim {
                 g.rep.hung = true;
                 return Done::Hung;
             }
-            if idle >= stall_ms {
+            // once real blocking has been seen in this process, stop waiting long for it
+            let stall_now = if SEEN_BLOCKING.load(std::sync::atomic::Ordering::Relaxed) {
+                stall_ms.min(120)
+            } else {
+                stall_ms
+            };
+            if idle >= stall_now {
                 if let Some(c) = g.current {
                     let other = (0..g.status.len()).find(|t| *t != c && g.status[*t] == St::Ready);
                     if let Some(o) = other {
                         g.status[c] = St::ExtBlocked;
                         g.rep.ext_block_events += 1;
+                        SEEN_BLOCKING.store(true, std::sync::atomic::Ordering::Relaxed);
                         g.current = Some(o);
                         g.digest.byte(0xFB);
                         self.cvs[o].notify_one();
